@@ -2,6 +2,7 @@ package main
 
 import (
 	"fmt"
+	"go/types"
 	"sort"
 	"strings"
 
@@ -199,7 +200,7 @@ func checkC17(p *Prog, r *Report) {
 					rs = append(rs, s)
 				}
 			}
-			r.Fail("R6", "field:"+v.Key, p.InstrPos(firstWrite(ls.Accesses[v.Key]).Ins), fmt.Sprintf("written without a lock in %s; read in %s", uniq(ws), uniq(rs)))
+			r.Fail("R6", "field:"+stableFieldKey(p, v.Key), p.InstrPos(firstWrite(ls.Accesses[v.Key]).Ins), fmt.Sprintf("field %s is written without a lock in %s; read in %s", v.Key, uniq(ws), uniq(rs)))
 		default:
 			nGuarded++
 			if len(v.Deviants) == 0 {
@@ -356,4 +357,40 @@ func uniq(s []string) string {
 		m[x] = true
 	}
 	return strings.Join(sortedKeys(m), ", ")
+}
+
+// stableFieldKey renders "Struct.field" of package spine as "Struct.<type>#k" (k-th
+// field of that type in the struct), so that a known finding survives the
+// renaming of an unexported field. Keys of another shape are returned unchanged.
+func stableFieldKey(p *Prog, key string) string {
+	dot := strings.Index(key, ".")
+	if dot < 0 || strings.ContainsAny(key[dot+1:], ".->[") {
+		return key
+	}
+	obj := p.TypesPkg("spine").Scope().Lookup(key[:dot])
+	if obj == nil {
+		return key
+	}
+	st, ok := obj.Type().Underlying().(*types.Struct)
+	if !ok {
+		return key
+	}
+	q := func(pk *types.Package) string { return pk.Name() }
+	for i := 0; i < st.NumFields(); i++ {
+		if st.Field(i).Name() != key[dot+1:] {
+			continue
+		}
+		if st.Field(i).Exported() {
+			return key
+		}
+		ts := types.TypeString(st.Field(i).Type(), q)
+		k := 0
+		for j := 0; j <= i; j++ {
+			if types.TypeString(st.Field(j).Type(), q) == ts {
+				k++
+			}
+		}
+		return fmt.Sprintf("%s.(%s)#%d", key[:dot], ts, k)
+	}
+	return key
 }
